@@ -340,6 +340,38 @@ def standin_params_and_loops(tier, seed):
                 badk = [k_ for k_ in set(got) | set(want) if abs(got.get(k_, 0) - want.get(k_, 0)) > 1e-5][:2]
                 bad("repeat-until", f"{name}: records of the loop differ from the body written out {iters} time(s): {[(k_, round(got.get(k_, 0), 4), round(want.get(k_, 0), 4)) for k_ in badk]} (got, expected)",
                     circuit=circ, iterations=iters)
+    # a loop nested in a repeated (key-scoped) sub-circuit whose condition compares its own key with a key of the ENCLOSING scope, with a
+    # decoy measurement of the same name at top level
+    for decoy in (False, True):
+        for outer_reps in (2, 3):
+            loop = cirq.CircuitOperation(cirq.FrozenCircuit(cirq.X(q[1]), cirq.measure(q[1], key="b")), use_repetition_ids=False,
+                                         repeat_until=cirq.SympyCondition(sympy.Eq(sympy.Symbol("a"), sympy.Symbol("b"))))
+            outer = cirq.CircuitOperation(cirq.FrozenCircuit(cirq.X(q[0]), cirq.measure(q[0], key="a"), loop)).repeat(outer_reps, use_repetition_ids=True)
+            top = ([cirq.measure(q[2], key="a")] if decoy else [])
+            circ = cirq.Circuit(top, outer)
+            flat = list(top)
+            for i in range(outer_reps):
+                pre = (str(i),)
+                # pass i: a = 1, 0, ... and q1 toggles once per iteration: the loop stops after exactly one iteration each time
+                flat += [cirq.X(q[0]), cirq.measure(q[0], key=cirq.MeasurementKey("a", path=pre)), cirq.X(q[1]), cirq.measure(q[1], key=cirq.MeasurementKey("b", path=pre))]
+            cases += 1
+            want = refsim.ref_distribution(cirq.Circuit(flat, strategy=cirq.InsertStrategy.NEW), list(q))
+            for name, mk in (("Simulator", lambda s_: cirq.Simulator(seed=s_)), ("DensityMatrixSimulator", lambda s_: cirq.DensityMatrixSimulator(seed=s_))):
+                try:
+                    got = {}
+                    for p_, rec in enumerate_branches(lambda r: _canon_records(mk(r).run(circ, repetitions=1))):
+                        got[rec] = got.get(rec, 0.0) + p_
+                except RuntimeError:
+                    continue
+                except Exception as ex:
+                    bad("nested-repeat-until-raised", f"{name}: {type(ex).__name__}: {str(ex)[:160]}", circuit=circ)
+                    continue
+                if not refsim.dist_close(got, want, atol=1e-5):
+                    bad("nested-repeat-until", f"{name}: a loop whose condition reads a key of the enclosing repetition does not match its unrolled form: got {sorted(got)[:2]}, expected {sorted(want)[:2]}", circuit=circ)
+            want_ck = {str(cirq.MeasurementKey("a", path=(str(i),))) for i in range(outer_reps)}
+            flat_keys = {str(k) for k in cirq.measurement_key_objs(cirq.Circuit(flat))}
+            if {str(k) for k in cirq.measurement_key_objs(circ)} != flat_keys:
+                bad("nested-repeat-until-keys", "measurement keys of the nested loop differ from the unrolled circuit's", circuit=circ)
     return dict(function=F + "[bound parameters, repeat-until]", case="params-and-loops",
                 bound="seeded bodies with 3 parameterized gates x 1-3 composed with_params maps (symbols onto symbols / expressions / numbers) x optional nesting, resolved at random values; "
                       "repeat-until loops with 1 or 2 deterministic iterations x {plain, key map, key path, nested in a repeated sub-circuit} x {key, sympy, bit-mask} conditions x 2 simulators",
